@@ -140,7 +140,7 @@ inductive Site
   | forCoerceNegative -- eval/stmt.rs coerce_loop_value: u64::try_from(negative) => TypeMismatch
   | forCoerceBool     -- eval/stmt.rs coerce_loop_value: `_ => TypeMismatch`
   | exitOutsideLoop   -- eval/stmt.rs Stmt::Exit / Stmt::Continue with loop_depth = 0
-  | programFlow       -- runtime/cycle.rs execute_program: body result other than Continue
+  | programFlow       -- runtime/cycle.rs execute_program: body result other than Continue / Return
   | callArgCount      -- eval/mod.rs prepare_bindings: positional call with the wrong number of arguments
   | callBindTarget    -- eval/mod.rs prepare_bindings: OUT / IN_OUT argument that is not an l-value
   | callUndefined     -- eval/expr/eval.rs Expr::Call: no function / instance of that name
@@ -376,8 +376,6 @@ structure Cfg where
   /-- repair: an untyped integer literal is lowered to the smallest-fit kind the checker gave it
   (`smallest_int_type_for_literal`) instead of DINT -/
   litSmallest : Bool := false
-  /-- repair: `RETURN` in a PROGRAM body ends the cycle normally (docs/specs/06 §6) -/
-  returnOk : Bool := false
   /-- repair: FOR bounds are converted exactly (no `ULINT as i64` wrap, no i64 counter) -/
   forExact : Bool := false
 
@@ -746,7 +744,7 @@ structure RunState where
 abbrev CycleOut := Option Stop
 
 /-- `runtime/cycle.rs: execute_cycle` → `execute_program` for the single (background) program:
-latch test, frame push, body, frame pop on every path, `Continue` required, fault latched. -/
+latch test, frame push, body, frame pop on every path, `Continue` or `Return` required, fault latched. -/
 def cycle (cfg : Cfg) (p : Program) (fuel : Nat) (st : RunState) : RunState × CycleOut :=
   if st.faulted then (st, some (.fault .ResourceFaulted .latched)) else
   let σ0 := { st.store with frames := p.name :: st.store.frames }
@@ -754,9 +752,7 @@ def cycle (cfg : Cfg) (p : Program) (fuel : Nat) (st : RunState) : RunState × C
   let σ2 := { σ1 with frames := σ1.frames.tail }
   match r with
   | .ok .cont => ({ store := σ2, faulted := false }, none)
-  | .ok .ret =>
-    if cfg.returnOk then ({ store := σ2, faulted := false }, none)
-    else ({ store := σ2, faulted := true }, some (.fault .InvalidControlFlow .programFlow))
+  | .ok .ret => ({ store := σ2, faulted := false }, none)   -- RETURN ends the program for this cycle (f3b5b76)
   | .ok _ => ({ store := σ2, faulted := true }, some (.fault .InvalidControlFlow .programFlow))
   | .error s => ({ store := σ2, faulted := true }, some s)
 
